@@ -12,6 +12,15 @@ BASE_NOTE = (
 
 # property -> (category, text, technique, design_ref, extra note)
 CLAIMS = {
+    "C21": (
+        "other",
+        "Totality is carried by a structural precondition obligation (every list.pop() in TagAnalysis is guarded by a non-emptiness test of the same list) and 'no false alarms' by a derived-table obligation: "
+        "the inner tags that the real Tag.parse methods accept inside a block (constants read from the parser sources on every run) must be admitted by DEFAULT_INNER_TAG_MAP. "
+        "The main loop of _audit_tags is not under a symbolic contract; an exhaustive bounded contract check (all tag sequences up to length 4, thorough 5, over 18 pieces: >100k sources) stands in and is labelled bounded.",
+        "structural contract obligations (guarded partial operations; constant table vs parser-derived table) + bounded exhaustive contract check",
+        "DESIGN.md section 4 C21",
+        "One known finding (orphan break/continue reported as unexpected although the source parses) keeps the level at 'other'.",
+    ),
     "C27": (
         "proof",
         "CallNode.macro_args is verified against the binding specification (positional in order, then keyword by name overriding, then parameter default; surplus positional arguments in order; surplus keyword arguments by name, last wins) "
